@@ -169,85 +169,7 @@ def make_stubs():
 
     import datetime
 
-    class OpaqueTimedelta:
-        def __init__(self, seconds):
-            self.seconds_total = seconds
-
-        def __radd__(self, other):
-            # datetime + timedelta: an opaque later instant
-            return ("opaque-datetime", other, self.seconds_total)
-
-    def timedelta_stub(I, *a, **kw):
-        """datetime.timedelta(seconds=n) on a symbolic int: OverflowError beyond
-        999999999 days, else an opaque value"""
-        from symex.core import SInt
-
-        sec = kw.get("seconds", a[1] if len(a) > 1 else 0)
-        if isinstance(sec, SInt) and set(kw) <= {"seconds"} and len(a) <= 0:
-            lim = 86400 * 1000000000
-            if sec >= lim or sec < -86400 * 999999999:
-                raise OverflowError("days out of range")
-            return OpaqueTimedelta(sec)
-        return datetime.timedelta(*a, **kw)
-
-    C_INT = 2 ** 31
-
-    class OpaqueTz:
-        pass
-
-    class OpaqueDatetime:
-        __symex_carrier__ = True
-
-        def __init__(self, tzinfo, fields=None):
-            self.tzinfo = tzinfo
-            self.fields = fields
-
-        def replace(self, tzinfo=None):
-            return OpaqueDatetime(tzinfo, self.fields)
-
-    def timezone_stub(I, offset, *a):
-        """datetime.timezone(offset): ValueError unless -24h < offset < 24h"""
-        if isinstance(offset, OpaqueTimedelta):
-            sec = offset.seconds_total
-            if sec >= 86400 or sec <= -86400:
-                raise ValueError("offset must be a timedelta strictly between -timedelta(hours=24) and timedelta(hours=24)")
-            return OpaqueTz()
-        return datetime.timezone(offset, *a)
-
-    def datetime_stub(I, *a, **kw):
-        """datetime.datetime(y, m, d, hh, mm, ss[, tzinfo]) on symbolic ints: OverflowError
-        when an argument does not fit a C int, ValueError when a field is out of range
-        (day checked against the month's length incl. leap years), else an opaque value"""
-        from symex.core import SInt
-
-        tz = kw.get("tzinfo")
-        if len(a) == 7 and tz is None and not kw:
-            a, tz = a[:6], a[6]
-        if not (any(isinstance(x, SInt) for x in a) or isinstance(tz, OpaqueTz)) or len(a) != 6 or set(kw) - {"tzinfo"}:
-            return datetime.datetime(*a, **kw)
-        for x in a:
-            if x >= C_INT or x < -C_INT:
-                raise OverflowError("signed integer is greater than maximum")
-        y, m, d, hh, mi, ss = a
-        if y < 1 or y > 9999:
-            raise ValueError("year is out of range")
-        if m < 1 or m > 12:
-            raise ValueError("month must be in 1..12")
-        if m == 2:
-            dim = 29 if (y % 4 == 0 and (y % 100 != 0 or y % 400 == 0)) else 28
-        elif m == 4 or m == 6 or m == 9 or m == 11:
-            dim = 30
-        else:
-            dim = 31
-        if d < 1 or d > dim:
-            raise ValueError("day is out of range for month")
-        if hh < 0 or hh > 23:
-            raise ValueError("hour must be in 0..23")
-        if mi < 0 or mi > 59:
-            raise ValueError("minute must be in 0..59")
-        if ss < 0 or ss > 59:
-            raise ValueError("second must be in 0..59")
-        return OpaqueDatetime(tz, tuple(a))
+    from harness import dtmodel
 
     import urllib.parse
 
@@ -276,10 +198,10 @@ def make_stubs():
 
     from harness.c03 import make_stubs as quote_stubs
 
-    st = {base64.b64decode: b64decode_stub, datetime.timedelta: timedelta_stub, datetime.timezone: timezone_stub,
-          datetime.datetime: datetime_stub, urllib.parse.parse_qsl: parse_qsl_stub,
+    st = {base64.b64decode: b64decode_stub, urllib.parse.parse_qsl: parse_qsl_stub,
           codecs.lookup: stdstubs.codecs_lookup_stub, urllib.parse.urlsplit: urlsplit_stub}
     st.update(quote_stubs())
+    st.update(dtmodel.stubs())
     return st
 
 
